@@ -28,6 +28,7 @@ func init() {
 			{ID: "C02.3", Doc: "K-nearest comparator orientation", Floor: 2, Run: c02r3},
 			{ID: "C02.4", Doc: "bounded trim from the far end", Floor: 6, Run: c02r4},
 			{ID: "C02.5", Doc: "traversal state guarded by Operation.mu", Floor: 15, Run: c02r5},
+			{ID: "C02.6", Doc: "a response is registered in the result set before its query stops counting as in flight (shared with C03.2)", Floor: 5, Run: c03r2},
 		},
 	})
 }
